@@ -29,6 +29,7 @@ from . import c05
 BASE = ["ARRAY", "BLOB", "BOOLEAN", "DATE", "DECIMAL", "DOUBLE", "INTEGER", "INTERVAL", "STRUCT", "TIMESTAMP", "TIME",
         "VARCHAR", "NULL", "JSONB"]
 SCALAR = [b for b in BASE if b not in ("ARRAY", "DECIMAL")]
+ELEMENT_MEMBERS = BASE + ["_MISSING_TYPE"]
 # the attributes the statement lists for a column, and for flattening
 LISTED = ["name", "type", "length", "precision", "scale", "element_type", "nullable", "default", "aliases", "description",
           "disposition", "identity", "highest_value", "lowest_value", "null_count"]
@@ -413,6 +414,37 @@ def run_flat(case):
     return fails, ["ok", enc_col(f)], line, "flat"
 
 
+MUTABLE = ["nullable", "aliases", "description", "default", "lowest_value", "highest_value", "null_count"]
+
+
+def run_flat2(case):
+    """flatten, assign some attributes (statistics are recorded after construction, aliases and nullability are
+    adjusted by planners), flatten again: the second flat column keeps the column's *current* attributes."""
+    S, _ = _orso()
+    c = construct(case["col"])
+    donor = construct(dict(case["col"], **case["then"]))
+    fails = []
+    try:
+        with warnings.catch_warnings():
+            warnings.simplefilter("ignore")
+            f1 = c.to_flatcolumn()
+            for attr, x, y in attr_diffs(c, f1, FLAT_LISTED):
+                fails.append(("flat: flattening changes %s" % attr, {"op": "flat", "attr": attr, "orig": show(x), "got": show(y)}))
+            for k in case["then"]:
+                setattr(c, k, getattr(donor, k))
+            enc = enc_col(c)
+            line = None if has_other(enc) else "C16 flat " + wire.line(enc, "fresh")
+            f2 = c.to_flatcolumn()
+    except Exception as e:
+        cls = type(e).__name__
+        fails.append(("flat: to_flatcolumn raised %s" % cls, {"op": "flat", "raised": cls, "message": str(e)[:200]}))
+        return fails, ["err", "ValueError" if isinstance(e, ValueError) else cls], None, "flat"
+    for attr, x, y in attr_diffs(c, f2, FLAT_LISTED):
+        fails.append(("flat: flattening an updated column again changes %s" % attr,
+                      {"op": "flat2", "attr": attr, "orig": show(x), "got": show(y)}))
+    return fails, ["ok", enc_col(f2)], line, "flat"
+
+
 def run_init(case):
     """correspondence only: FlatColumn(**kw) and the re-construction from its attributes"""
     S, _ = _orso()
@@ -436,7 +468,7 @@ def run_init(case):
     return [], [["ok", enc_col(c)], second], line, "init"
 
 
-RUNNERS = {"schema": run_schema, "json": run_json, "flat": run_flat, "init": run_init}
+RUNNERS = {"schema": run_schema, "json": run_json, "flat": run_flat, "flat2": run_flat2, "init": run_init}
 
 
 def valid_case(c):
@@ -474,6 +506,11 @@ def valid_case(c):
                 return False
             if c["kind"] != "init":
                 construct(sp)  # the original must be constructible
+        if c["kind"] == "flat2":
+            if not isinstance(c.get("then"), dict) or not c["then"] or not all(k in MUTABLE for k in c["then"]):
+                return False
+            if not valid_case({"kind": "flat", "col": dict(c["col"], **c["then"])}):
+                return False
         return True
     except Exception:
         return False
@@ -734,6 +771,28 @@ def exhaustive_cases(ctx):
                     sp["length"] = 5
                     sp["origin"] = ["src"]
                 yield {"kind": "flat", "col": sp}
+    # an ARRAY column whose element type is given by keyword: every member, including the ones the ARRAY<T>
+    # name form cannot express (ARRAY, DECIMAL, untyped) - seeded change C16-w2s1
+    for form in (["member", "ARRAY"], ["text", "ARRAY"], ["text", "LIST"], ["text", "ARRAY<INTEGER>"]):
+        for et in ELEMENT_MEMBERS:
+            for toggles in ([], ["aliases", "non-nullable"]):
+                sp = dict(column_spec("e", form, "ARRAY", toggles), element_type=["member", et])
+                yield {"kind": "schema", "name": "t", "aliases": [], "pk": None, "cols": [sp], "records": [{"e": "none"}, {}]}
+                yield {"kind": "json", "col": sp}
+                yield {"kind": "flat", "col": sp}
+    # flatten, update, flatten again (seeded change C16-s2: a memoised flat copy goes stale)
+    for cls in COLUMN_CLASSES:
+        for fi, (form, base) in enumerate(forms):
+            if not thorough and fi % 3 != COLUMN_CLASSES.index(cls) % 3:
+                continue
+            for t0, t1 in (([], ["statistics"]), (["aliases"], ["aliases", "non-nullable"]), (TOGGLES, ["description", "statistics"]),
+                           ([], ["default", "description"])):
+                sp = column_spec("g", form, base, t0, pick=fi)
+                sp["cls"] = cls
+                sp2 = column_spec("g", form, base, t1, pick=fi + 1)
+                then = {k: sp2[k] for k in MUTABLE if k in sp2 and sp2[k] != sp.get(k)}
+                if then:
+                    yield {"kind": "flat2", "col": sp, "then": then}
     # the constructor: raw keyword arguments inside the modelled domain
     for fi, (form, base) in enumerate(forms):
         for toggles in ([], ["aliases", "description", "non-nullable"], ["disposition"], ["statistics"]):
@@ -761,6 +820,13 @@ def exhaustive_cases(ctx):
 NAMES = ["a", "b", "col", "Col", "name", "type", "é", "日本", "with space", "x" * 30, "0", ""]
 
 
+def _base_of(form, forms):
+    for f, b in forms:
+        if f == form:
+            return b
+    return None
+
+
 def random_column(rng, name, forms):
     form, base = rng.choice(forms)
     toggles = [t for t in TOGGLES if rng.random() < 0.4]
@@ -772,8 +838,8 @@ def random_column(rng, name, forms):
         sp["origin"] = [rng.choice(NAMES) for _ in range(rng.randint(1, 2))]
     if rng.random() < 0.15:
         sp[rng.choice(["precision", "scale", "length"])] = rng.choice([0, 1, 5, 28, 38, 100])
-    if rng.random() < 0.1 and base == "ARRAY":
-        sp["element_type"] = ["member", rng.choice(SCALAR)]
+    if rng.random() < 0.25 and base == "ARRAY":
+        sp["element_type"] = ["member", rng.choice(ELEMENT_MEMBERS)]
     if rng.random() < 0.1:
         sp["identity"] = rng.choice(["", "é", "id id", "0123456789abcdef"])
     return sp
@@ -792,7 +858,11 @@ def random_case(ctx, forms):
     if r < 0.7:
         return {"kind": "json", "col": sp}
     sp["cls"] = rng.choice(COLUMN_CLASSES)
-    return {"kind": "flat", "col": sp}
+    if r < 0.85:
+        return {"kind": "flat", "col": sp}
+    sp2 = random_column(rng, sp["name"], [(sp.get("type", "absent"), _base_of(sp.get("type", "absent"), forms))])
+    then = {k: sp2[k] for k in MUTABLE if k in sp2 and sp2[k] != sp.get(k)}
+    return {"kind": "flat2", "col": sp, "then": then} if then else {"kind": "flat", "col": sp}
 
 
 def _run_batched(ctx, it, size=1500):
